@@ -170,6 +170,22 @@ def run(ctx):
         r5.instance({"fn": fp.def_, "rewriting_calls_beyond_control_char_filter": bad}, ok)
         if not ok:
             r5.violate("C17|R5|%s" % fp.def_, "%s rewrites the body with %s before parsing it: only the ASCII-control filter and trim are part of the contract" % (fp.def_, bad), fp.file, fp.span["line"], fp.def_)
+    # ... nor does any function of the crate that the decoding wrappers call (a post-processing step such as `plus_as_space(map)`)
+    for wn in ("body::form_urlencoded::FormUrlEncoded::parse", "request::Request::get_uri_query", "request::Request::get_query"):
+        wf = F.fns.get(wn)
+        if wf is None:
+            continue
+        allowed_helpers = {"url::URL::parse", "url::URL::parse_query", "request::Request::get_uri_query", "request::Request::get_query", "request::Request::get_uri_path"}
+        for e in G.out.get(wn, []):
+            hf = F.fns.get(e.dst)
+            if hf is None or hf.crate != "rws" or e.dst in allowed_helpers or e.dst in thin or hf.kind == "Promoted" or e.dst.startswith("ext::string_ext::") or e.dst.startswith("symbol::"):
+                continue
+            sub = [n_ for n_ in G.reachable([e.dst]) if n_ in F.fns and F.fns[n_].crate == "rws"]
+            bad = sorted({callee_name(tt) for n_ in sub for _, tt in F.fns[n_].calls() if REWRITERS.fullmatch(callee_name(tt) or "") and not (callee_name(tt) or "").endswith(("::trim", "::to_string"))})
+            ok = not bad
+            r5.instance({"wrapper": wn, "helper": e.dst, "rewriting_calls": bad}, ok)
+            if not ok:
+                r5.violate("C17|R5|%s|%s" % (wn, e.dst), "%s hands what it decodes to %s, which rewrites text with %s: the fields returned are no longer the fields submitted (a `+` the encoder protected as %%2B, for instance)" % (wn, e.dst, bad), hf.file, hf.span["line"], wn)
     # echo controllers: functions that iterate a decoded map
     sources = ("request::Request::get_uri_query", "request::Request::get_query", "body::form_urlencoded::FormUrlEncoded::parse", "url::URL::parse_query")
     for fn in F.rws_fns():
